@@ -19,7 +19,8 @@ RULE = (
     "bit incl. 8/9); odd filter_size 1-9 (median, median_for_intervals), sigma_space/sigma_color in [0.3,20] "
     "(bilateral); interval bands with NaN on invalid pixels and regularisation on/off for median_for_intervals. "
     "Non-trivial = at least one valid pixel whose window contains an invalid pixel and at least one pixel whose value "
-    "changed; distinct = distinct canonical payload."
+    "changed; distinct = distinct canonical payload. Pipeline twin: the datasets handed to every median / bilateral step of "
+    "generated legal pipelines (after refinement, validation, filling; left and right) judged by the same references."
 )
 ASSUMPTIONS = [
     "the image is at least as large as the filter window (every caller guarantees it)",
